@@ -12,6 +12,7 @@ import (
 	"strings"
 
 	"github.com/quasilyte/go-ruleguard/ruleguard"
+	"github.com/quasilyte/gogrep"
 )
 
 // Target is a parsed and type-checked Go file.
@@ -85,6 +86,8 @@ type Report struct {
 	From, To   int
 	Repl       string
 	NodeKind   string
+	SliceKind  int // gogrep.NodeSlice kind (expr/stmt/…), -1 if the node is not a slice
+	SliceLen   int
 	NodeNil    bool
 	GroupNil   bool
 	FuncName   string
@@ -165,6 +168,11 @@ func Run(e *ruleguard.Engine, t *Target, o RunOpts) (reports []Report, panicKind
 				return
 			}
 			r.NodeKind = fmt.Sprintf("%T", d.Node)
+			r.SliceKind = -1
+			if ns, ok := d.Node.(*gogrep.NodeSlice); ok {
+				r.SliceKind = int(ns.Kind)
+				r.SliceLen = ns.Len()
+			}
 			r.Pos = offset(t.Fset, d.Node.Pos())
 			r.End = offset(t.Fset, d.Node.End())
 			r.Line = t.Fset.Position(d.Node.Pos()).Line
